@@ -570,6 +570,9 @@ package table
 //@   loop 0 invariant isNilSlice(batchCmd.Batch) || fresh(batchCmd.Batch)
 // the leader index of the message read last is either pending in the batch command or was carried by
 // the proposal just made (so the index of the final DUMMY message always reaches the table)
+// when the loop is left normally nothing is pending: the leader index of the last message (the DUMMY's)
+// has been handed to a proposal even if no record was pending with it
+//@   loop 0 exit [C07.li.final+C05] batchCmd.LeaderIndex == nil && len(batchCmd.Batch) == 0
 //@   loop 0 invariant [C07.li.track] batchCmd.LeaderIndex == cmd.LeaderIndex || (batchCmd.LeaderIndex == nil && hasLI(m.nh.lastCmd) == (cmd.LeaderIndex != nil) && (cmd.LeaderIndex != nil ==> liVal(m.nh.lastCmd) == *cmd.LeaderIndex))
 
 //@ func (*Manager).waitForLeader
